@@ -618,6 +618,9 @@ func ruleOnPathOnly(p *Program, r *Reporter) {
 				// in every function that calls the helper (the conversion whose
 				// container was inserted)
 				undone := func(g *ssa.Function, keyVal ssa.Value) bool {
+					if defersUndoHandedBack(g, field) {
+						return true
+					}
 					for _, gb := range g.Blocks {
 						for _, gi := range gb.Instrs {
 							df, ok := gi.(*ssa.Defer)
